@@ -164,18 +164,61 @@ func sameAsSent(w *World, s Step, b *Body, res any) string {
 	return ""
 }
 
-func runBehaviour(w *World, beh []Step, usePEM bool, rep *vh.Report, kinds map[string]bool) {
-	opts := jsonclient.Options{Logger: silent{}, PublicKeyDER: w.LogSPKI}
-	if usePEM {
-		opts = jsonclient.Options{Logger: silent{}, PublicKey: w.LogPEM}
-	}
-	holder := &swapRT{}
-	lc, err := client.New("http://log.example/log/", &http.Client{Transport: holder}, opts)
+// digest describes what a call handed back, for comparing two executions of the same behaviour.
+func digest(res any, err error) string {
 	if err != nil {
-		panic(err)
+		return "error"
 	}
+	switch v := res.(type) {
+	case *ct.SignedTreeHead:
+		if v != nil {
+			return fmt.Sprintf("sth %d %d %x %x", v.TreeSize, v.Timestamp, v.SHA256RootHash[:], dsOf(v.TreeHeadSignature))
+		}
+	case *ct.SignedCertificateTimestamp:
+		if v != nil {
+			return fmt.Sprintf("sct %d %x %d %x %x", v.SCTVersion, v.LogID.KeyID[:], v.Timestamp, []byte(v.Extensions), dsOf(v.Signature))
+		}
+	}
+	return "value"
+}
+
+// runBehaviour executes the calls of one behaviour on ONE long-lived client (freshEach: on a new client per call, the
+// server being the same) and returns what each call handed back.
+// optionsFor fills the two key options of jsonclient.Options as LogClient.tla's KeyOptionTable says: the key the
+// documentation names ("If both ... are set, PublicKeyDER is used") is always the log's; under bothDifferent the PEM
+// option names the foreign key the server's classes sigByOtherKey / logIDForeign use.
+func optionsFor(w *World, config string) jsonclient.Options {
+	switch config {
+	case "der":
+		return jsonclient.Options{Logger: silent{}, PublicKeyDER: w.LogSPKI}
+	case "pem":
+		return jsonclient.Options{Logger: silent{}, PublicKey: w.LogPEM}
+	case "bothSame":
+		return jsonclient.Options{Logger: silent{}, PublicKeyDER: w.LogSPKI, PublicKey: w.LogPEM}
+	case "bothDifferent":
+		return jsonclient.Options{Logger: silent{}, PublicKeyDER: w.LogSPKI, PublicKey: w.OtherPEM}
+	}
+	panic("c12: unknown key option " + config)
+}
+
+func runBehaviour(w *World, beh []Step, config string, freshEach bool, rep *vh.Report, kinds map[string]bool) []string {
+	opts := optionsFor(w, config)
+	holder := &swapRT{}
+	newClient := func() *client.LogClient {
+		lc, err := client.New("http://log.example/log/", &http.Client{Transport: holder}, opts)
+		if err != nil {
+			panic(err)
+		}
+		return lc
+	}
+	lc := newClient()
+	outcomes := make([]string, len(beh))
 	for n, s := range beh {
-		ctxt := map[string]any{"behaviour": beh[:n+1], "step": n, "keytype": w.KeyType, "pem": usePEM}
+		s.Config = config
+		if freshEach && n > 0 {
+			lc = newClient()
+		}
+		ctxt := map[string]any{"behaviour": beh[:n+1], "step": n, "keytype": w.KeyType, "config": config, "fresh_client_per_call": freshEach}
 		ctx, cancel := context.WithCancel(context.Background())
 		sc := &Script{w: w, step: s, cancel: cancel}
 		holder.set(sc)
@@ -195,14 +238,16 @@ func runBehaviour(w *World, beh []Step, usePEM bool, rep *vh.Report, kinds map[s
 		}()
 		cancel()
 		if panicked {
+			outcomes[n] = "panic"
 			continue
 		}
+		outcomes[n] = digest(res, cerr)
 		returned := cerr == nil
 		var last *Body
 		if len(sc.Served) > 0 {
 			last = sc.Served[len(sc.Served)-1]
 		}
-		desc := fmt.Sprintf("%s(%s) answered %v end=%s (%s key)", s.Method, s.Chain, s.Answers, s.End, w.KeyType)
+		desc := fmt.Sprintf("%s(%s) answered %v end=%s (%s key, key options %s)", s.Method, s.Chain, s.Answers, s.End, w.KeyType, config)
 		if sc.BadPath != "" {
 			rep.Violate(fp("wrong-endpoint"), desc+": the request went to "+sc.BadPath, ctxt)
 		}
@@ -254,6 +299,34 @@ func runBehaviour(w *World, beh []Step, usePEM bool, rep *vh.Report, kinds map[s
 			rep.Violate(fp("returned-differs"), desc+": "+d, ctxt)
 		}
 	}
+	return outcomes
+}
+
+// runBoth executes a behaviour on one long-lived client and, when it has more than one call, again with a fresh client
+// per call: the client has no business remembering anything about signed data, so the two must hand back the same.
+func runBoth(w *World, beh []Step, config string, rep *vh.Report, kinds map[string]bool) {
+	long := runBehaviour(w, beh, config, false, rep, kinds)
+	if len(beh) < 2 {
+		return
+	}
+	fresh := runBehaviour(w, beh, config, true, rep, map[string]bool{})
+	for n := range beh {
+		if long[n] != fresh[n] {
+			s := beh[n]
+			s.Config = config
+			rep.Violate(s.Method+":"+s.Label()+":depends-on-history", fmt.Sprintf("%s(%s) answered %v (%s key): call %d of the sequence hands back %q "+
+				"on a client that made the earlier calls and %q on a fresh client", s.Method, s.Chain, s.Answers, w.KeyType, n+1, short(long[n]), short(fresh[n])),
+				map[string]any{"behaviour": beh[:n+1], "step": n, "keytype": w.KeyType, "config": config})
+			return
+		}
+	}
+}
+
+func short(s string) string {
+	if len(s) > 60 {
+		return s[:60] + "..."
+	}
+	return s
 }
 
 func note(s string) string {
@@ -287,10 +360,12 @@ func TestReplay(t *testing.T) {
 	if err != nil {
 		t.Fatal(err)
 	}
-	rep := vh.NewReport("c12-replay", "every (method, chain, answer script) of LogClient.tla and two-call sequences replayed into real client.LogClient "+
-		"instances (ECDSA P-256 and RSA 2048 log keys, key given as DER or PEM) through a scripted RoundTripper; verdict value/error compared with the "+
-		"specification, every returned STH/SCT re-verified with std crypto over the independent encoding of the submitted chain, errors checked for "+
-		"status and body; non-trivial = distinct (method, failure layer, value/error) sets with a returned value")
+	rep := vh.NewReport("c12-replay", "every (method, chain, answer script) of LogClient.tla, two-call sequences and the history sequences (three calls, "+
+		"the server replaying earlier bodies / signature bytes) replayed into real client.LogClient instances (ECDSA P-256 and RSA 2048 log keys, key "+
+		"given as DER or PEM) through a scripted RoundTripper, each sequence on one long-lived client and again on a fresh client per call; verdict "+
+		"value/error compared with the specification, every returned STH/SCT re-verified with std crypto over the independent encoding of the chain "+
+		"submitted by THAT call, errors checked for status and body, the two executions compared; non-trivial = distinct (method, failure layer, "+
+		"value/error) sets with a returned value")
 	shared := NewShared(vh.Rand(12))
 	worlds := []*World{NewWorld("ecdsa", vh.Seed(), shared), NewWorld("rsa", vh.Seed(), shared)}
 	// sanity of the harness itself (infrastructure, not a verdict): the independent verifier accepts what the harness signs
@@ -312,7 +387,11 @@ func TestReplay(t *testing.T) {
 			for i := range ch {
 				for wi, w := range worlds {
 					kinds := map[string]bool{}
-					runBehaviour(w, behs[i], (i+wi)%2 == 1, rep, kinds)
+					config := behs[i][0].Config
+					if config == "" { // a behaviour recorded before the key options were part of the specification
+						config = []string{"der", "pem"}[(i+wi)%2]
+					}
+					runBoth(w, behs[i], config, rep, kinds)
 					ks := make([]string, 0, len(kinds))
 					val := false
 					for k := range kinds {
